@@ -249,15 +249,24 @@ def reduce_poly(p, rel, guard=64):
     raise Inconclusive('relation reduction did not terminate')
 
 
+def _with_facts(n):
+    """numerator under the path conditions of the forked run (Fork.facts)"""
+    fk = globals().get('FORK')
+    if fk is not None and fk.active and fk.facts:
+        for atom, c in fk.facts.items():
+            n = n.subst(atom, Poly({(): Fr(c)}) if c != 0 else Poly())
+    return n
+
+
 def rat_eq(a, b, rel=None):
-    n = a.n * b.d - b.n * a.d
+    n = _with_facts(a.n * b.d - b.n * a.d)
     if rel:
         n = reduce_poly(n, rel)
     return n.is_zero()
 
 
 def rat_is_zero(a, rel=None):
-    n = a.n
+    n = _with_facts(a.n)
     if rel:
         n = reduce_poly(n, rel)
     return n.is_zero()
@@ -678,10 +687,11 @@ class Ev:
             # condition of np.where / a masked store (decided by `choose`)
             return Rat.atom('mask:' + ' '.join(unparse(e).split()))
         if isinstance(e, ast.IfExp):
-            if self.choose is not None:
-                c = self.decide(e.test)
-                if c is not None:
-                    return self.ev(e.body if c else e.orelse)
+            c = self.decide(e.test) if self.choose is not None else None
+            if c is None:
+                c = FORK.ask(e.test)
+            if c is not None:
+                return self.ev(e.body if c else e.orelse)
             raise Inconclusive('conditional expression ' + unparse(e))
         if isinstance(e, (ast.BoolOp, ast.ListComp, ast.GeneratorExp, ast.Dict,
                           ast.JoinedStr, ast.Lambda, ast.Set, ast.DictComp)):
@@ -721,6 +731,35 @@ class Ev:
         for a, v in sub.items():
             n, d = n.subst(a, v), d.subst(a, v)
         return Rat(n, d)
+
+    def assume(self, test, truth):
+        """path condition of a forked guard: `x == 3` taken True (or `x != 3`
+        taken False) makes x the number 3 on the rest of the path"""
+        if isinstance(test, ast.UnaryOp) and isinstance(test.op, ast.Not):
+            return self.assume(test.operand, not truth)
+        if not (isinstance(test, ast.Compare) and len(test.ops) == 1):
+            return
+        eq = isinstance(test.ops[0], ast.Eq) and truth or \
+            isinstance(test.ops[0], ast.NotEq) and not truth
+        if not eq:
+            return
+        a, b = test.left, test.comparators[0]
+        if isinstance(a, ast.Constant):
+            a, b = b, a
+        if not (isinstance(b, ast.Constant) and isinstance(
+                b.value, (int, float)) and not isinstance(b.value, bool)):
+            return
+        try:
+            cur = self.ev(a)
+        except Inconclusive:
+            cur = None
+        if isinstance(cur, Rat) and cur.d == ONEP and len(cur.atoms()) == 1 \
+                and rat_eq(cur, Rat.atom(next(iter(cur.atoms())))):
+            FORK.facts[next(iter(cur.atoms()))] = b.value
+        if isinstance(a, ast.Name):
+            self.env[a.id] = Rat.const(b.value)
+        elif isinstance(a, ast.Attribute):
+            self.heap[self.key(a)] = Rat.const(b.value)
 
     def decide(self, test):
         """ask the rule's hook about a branch condition; `a != b`, `a is not
@@ -850,10 +889,12 @@ class Ev:
             if name == 'where' and len(e.args) == 3:
                 # elementwise selection: the caller's hook says which branch
                 # the elements under consideration take
-                if self.choose is not None:
-                    c = self.decide(e.args[0])
-                    if c is not None:
-                        return self.ev(e.args[1] if c else e.args[2])
+                c = self.decide(e.args[0]) if self.choose is not None \
+                    else None
+                if c is None:
+                    c = FORK.ask(e.args[0])
+                if c is not None:
+                    return self.ev(e.args[1] if c else e.args[2])
                 raise Inconclusive('np.where with undecided condition ' +
                                    unparse(e.args[0]))
             if name in ('isfinite', 'isnan', 'isinf') and e.args:
@@ -931,6 +972,23 @@ class Ev:
             self.env[tg.value.id] = tuple(cur)
         elif isinstance(tg, (ast.Attribute, ast.Subscript)):
             self.heap[self.key(tg)] = v
+            if isinstance(tg, ast.Subscript) and not isinstance(
+                    tg.slice, (ast.Constant, ast.Slice, ast.Tuple)):
+                # a masked store `a[mask] = v` overwrites the elements the
+                # mask selects.  Masks of the reference tree keep their
+                # established treatment (the hook of the rule, else the
+                # elements under consideration are not selected); a mask
+                # that was added is followed both ways
+                c = self.decide(tg.slice) if self.choose is not None else None
+                if c is None:
+                    c = FORK.ask(tg.slice)
+                if c:
+                    base = tg.value
+                    if isinstance(base, ast.Name) and isinstance(
+                            self.env.get(base.id), Rat):
+                        self.env[base.id] = v
+                    elif isinstance(base, ast.Attribute):
+                        self.heap[self.key(base)] = v
         else:
             raise Inconclusive('assignment target ' + unparse(tg))
 
@@ -975,6 +1033,10 @@ class Ev:
             if c is None and not s.orelse and all(
                     isinstance(b, ast.Raise) for b in s.body):
                 return False        # argument-validation guard: valid input
+            if c is None:
+                c = FORK.ask(s.test)
+                if c is not None:
+                    self.assume(s.test, c)
             if c is None:
                 raise Inconclusive('undecided branch ' + unparse(s.test))
             return self.run(s.body if c else s.orelse)
@@ -1139,6 +1201,65 @@ def fn_eval(P, func, args=None, choose=None, sym=None, heap=None, inline=None,
             ev.env[p] = Rat.atom(p)
     ev.run(func.node.body)
     return ev
+
+
+class Fork:
+    """Scheduler for *new* guards.
+
+    A branch condition that no hook of the running rule decides normally ends
+    the evaluation (`Inconclusive`): the function left the fragment the rule
+    was written for.  When the condition's text occurs nowhere in the
+    reference tree it is a guard somebody added, and the honest analysis of
+    an added guard is to follow both of its arms: the driver in
+    `core.run_rule` re-runs the whole rule once per combination of decisions
+    (one decision per distinct condition text, at most `LIMIT` texts), and
+    every obligation of the rule has to hold in every run.  A finding that
+    appears only under some decision is reported with that path condition.
+    On a tree whose guards all occur in the reference tree nothing changes.
+    """
+    LIMIT = 3
+
+    def __init__(self):
+        self.active = False
+        self.assign = {}
+        self.facts = {}
+        self.pending = []
+        self._ref = None
+
+    def reference_tests(self):
+        if self._ref is None:
+            from . import canon
+            self._ref = canon.reference_tests()
+        return self._ref
+
+    def begin(self, assign):
+        self.active = True
+        self.facts = {}
+        self.assign = dict(assign)
+        self.fixed = set(assign)
+        self.pending = []
+
+    def end(self):
+        self.active = False
+        return dict(self.assign), list(self.pending)
+
+    def ask(self, test):
+        if not self.active:
+            return None
+        txt = ' '.join(unparse(test).split())
+        if txt in self.assign:
+            return self.assign[txt]
+        ref = self.reference_tests()
+        if not ref or txt in ref or len(self.assign) >= self.LIMIT:
+            return None
+        alt = dict(self.assign)
+        alt[txt] = False
+        self.pending.append(alt)
+        self.assign[txt] = True
+        return True
+
+
+FORK = Fork()
 
 
 def explore(run, limit=64):
